@@ -158,7 +158,13 @@ func runBatch(id string, ops []string, seed int64) {
 		case "restart":
 			_ = runner.RestartProcess(name)
 		case "scale":
-			_ = runner.ScaleProcess(name, 1+r.Intn(3))
+			// back and forth across the name-width boundary (1 <-> 2..3 replicas renames the survivors), addressing the
+			// process by whichever of its names exists at the moment
+			base := names[r.Intn(3)]
+			n := 1 + r.Intn(3)
+			if runner.ScaleProcess(base, n) != nil {
+				_ = runner.ScaleProcess(base+"-0", n)
+			}
 		case "info":
 			_, _ = runner.GetProcessInfo(name)
 		case "shutdown":
